@@ -28,8 +28,20 @@ func checkpointV3(dbPath string) error {
 		return err
 	}
 	vxCkptLog = append(vxCkptLog, b)
+	// SQLite flushes the database file during a checkpoint only when it copies at
+	// least one frame into it; whether this WAL holds a committed frame is not
+	// modelled, so either may happen
+	if vxCkptMayFlush && vx.Fault("checkpointCopiedFrames") {
+		if f, err := os.OpenFile(dbPath, os.O_RDWR, 0); err == nil {
+			_ = f.Sync()
+			_ = f.Close()
+		}
+	}
 	return os.Remove(dbPath + "-wal")
 }
+
+// vxCkptMayFlush: the durability variant of the restore harness (C11).
+var vxCkptMayFlush bool
 
 var _ = checkpointV3Real
 
@@ -139,8 +151,17 @@ func VxC19Restore() {
 		vx.FSWriteFile(out, []byte{1, 2, 3})
 	}
 	vxCkptLog = nil
+	vxCkptMayFlush = vx.Param("DUR", 0) == 1
+	defer func() { vxCkptMayFlush = false }()
 	r := vxV3Replica(c)
 	err := r.RestoreV3(context.Background(), RestoreOptions{OutputPath: out, IntegrityCheck: IntegrityCheckNone})
+	if vxCkptMayFlush {
+		// the restored database becomes visible only with its content flushed
+		vx.Assert("restored-database-flushed-before-it-is-published", vx.FSEvents("rename-of-unsynced-file") == 0)
+		if err == nil {
+			vx.Assert("restored-database-durable-on-success", vx.FSExists(out) && !vx.FSFileDirty(out) && !vx.FSDirDirty(dir+"/restore"))
+		}
+	}
 	if preexisting {
 		vx.Assert("existing-output-refused", err != nil && bytes.Equal(vx.FSReadFile(out), []byte{1, 2, 3}))
 		return
